@@ -15,6 +15,7 @@ import DarsiaModel.Transport
 import DarsiaGen.TransportDispatch
 import DarsiaProofs.Transport
 import DarsiaProofs.TransportQuad
+import DarsiaProofs.TransportEmd
 import DarsiaProps.C15
 namespace Darsia.C05
 open Darsia Darsia.Quad
@@ -214,6 +215,62 @@ theorem emd_single_move (value dy dx : Rat) (drow dcol : Int) (s : Rat) :
     emdSingleSq (s * value) dy dx drow dcol = s ^ 2 * emdSingleSq value dy dx drow dcol := by
   refine ⟨?_, ?_, ?_⟩ <;> simp only [emdSingleSq] <;> push_cast <;> ring
 
+/-! ### OpenCV back-end: `EMD.__call__` around an abstract `cv2.EMD` satisfying the transport-metric contract `IsW1` -/
+
+/-- single-cell move: `EMD` returns mass × Euclidean distance in physical units (mass = value · cell volume, positions
+`(col·dx, row·dy)`); uses only the point-mass clause of the contract -/
+theorem emd_call_single_move {n : Nat} {pos : Nat → Rat × Rat} {E} (hE : IsW1 n pos E) (vol v : Rat) (i j : Nat)
+    (hi : i < n) (hj : j < n) (hv : v ≠ 0) :
+    emdCall E n vol (fun k => if k = i then v else 0) (fun k => if k = j then v else 0) =
+      dist2 (pos i) (pos j) * ((v * vol : Rat) : ℝ) := by
+  unfold emdCall
+  rw [emdWeight_single n i v hi hv, emdWeight_single n j v hj hv, hE.point i j hi hj]
+  have : emdIntegral n (fun k => if k = i then v else 0) = v := by
+    unfold emdIntegral; exact sumTo_ite_eq n i (fun _ => v) hi
+  rw [this]
+
+/-- symmetry for images of equal total sum (what `_compatibility_check` asserts) -/
+theorem emd_call_symm {n : Nat} {pos : Nat → Rat × Rat} {E} (hE : IsW1 n pos E) (vol : Rat) (a b : Nat → Rat)
+    (hab : emdIntegral n a = emdIntegral n b) : emdCall E n vol a b = emdCall E n vol b a := by
+  unfold emdCall; rw [hE.symm, hab]
+
+/-- linear scaling in the masses: the normalised signatures do not change, the rescaling factor does (no assumption on `E`) -/
+theorem emd_call_smul (E : (Nat → Rat) → (Nat → Rat) → ℝ) (n : Nat) (vol : Rat) (a b : Nat → Rat) (s : Rat) (hs : s ≠ 0) :
+    emdCall E n vol (fun k => s * a k) (fun k => s * b k) = ((s : Rat) : ℝ) * emdCall E n vol a b := by
+  unfold emdCall
+  rw [emdWeight_smul n a s hs, emdWeight_smul n b s hs]
+  have : emdIntegral n (fun k => s * a k) = s * emdIntegral n a := by unfold emdIntegral; exact sumTo_mul_left n s a
+  rw [this]; push_cast; ring
+
+/-- first-moment bound for non-negative images of equal positive sum: displacement of the first moment (positions
+`(col·dx, row·dy)`) × cell volume ≤ `EMD` -/
+theorem emd_call_first_moment {n : Nat} {pos : Nat → Rat × Rat} {E} (hE : IsW1 n pos E) (vol : Rat) (a b : Nat → Rat)
+    (hv : 0 ≤ vol) (ha : ∀ k, k < n → 0 ≤ a k) (hb : ∀ k, k < n → 0 ≤ b k) (hI : 0 < emdIntegral n a)
+    (hab : emdIntegral n a = emdIntegral n b) :
+    Real.sqrt (((momX n pos a - momX n pos b : Rat) : ℝ) ^ 2 + ((momY n pos a - momY n pos b : Rat) : ℝ) ^ 2) *
+        ((vol : Rat) : ℝ) ≤ emdCall E n vol a b :=
+  emdCall_first_moment hE vol a b hv ha hb hI hab
+
+/-- the signature the code builds (`_img_to_sig` of the normalised image): one row per pixel in row-major order, weight =
+pixel / sum, then `col·del_x`, `row·del_y` with `del_y, del_x = voxel_size`; weights sum to 1 for a non-zero total -/
+theorem sig_construction (R C : Nat) (dy dx : Rat) (a : Nat → Rat) (hI : emdIntegral (R * C) a ≠ 0) :
+    (sigOf R C dy dx a).length = R * C ∧
+    (∀ r c, r < R → c < C → (sigOf R C dy dx a).getD (r * C + c) (0, 0, 0) =
+      (a (r * C + c) / emdIntegral (R * C) a, (c : Rat) * dx, (r : Rat) * dy)) ∧
+    sumTo (R * C) (emdWeight (R * C) a) = 1 := by
+  refine ⟨by simp [sigOf], fun r c hr hc => ?_, ?_⟩
+  · have hk : r * C + c < R * C := by
+      calc r * C + c < r * C + C := by omega
+        _ = (r + 1) * C := by ring
+        _ ≤ R * C := Nat.mul_le_mul_right _ hr
+    have h1 : (r * C + c) % C = c := by rw [Nat.mul_comm, Nat.mul_add_mod]; exact Nat.mod_eq_of_lt hc
+    have h2 : (r * C + c) / C = r := by
+      rw [Nat.mul_comm, Nat.mul_add_div (by omega)]; simp [Nat.div_eq_of_lt hc]
+    simp only [sigOf, List.getD_eq_getElem?_getD, List.getElem?_map, List.getElem?_range hk, Option.map_some,
+      Option.getD_some, emdWeight, emdPos, h1, h2]
+  · show sumTo (R * C) (fun k => a k / emdIntegral (R * C) a) = 1
+    rw [sumTo_div]; exact div_self hI
+
 /-! ### first-moment bound (real quadrature nodes, Euclidean norm) -/
 
 /-- **First-moment bound**, abstract form: for every seminorm, every rule with non-negative weights of total 1 whose
@@ -293,6 +350,43 @@ theorem potential_lower_bound (shape : List Nat) (h : List Rat) (hv : 0 ≤ vol 
   potential_lower_bound_aux (euclid_isSeminormR shape.length) shape h hv t ht.nonneg ht.total ht.first f U p g hF hc
     (fun c hc' v => euclid_polar shape.length (g c) (hg c hc') v)
 
+/-- **Weak duality with one dual vector per quadrature point** (exact dual of the cost for a rule with rational nodes):
+non-negative weights; `g c q` in the Euclidean unit ball for every cell and quadrature point; on every face the RT0-weighted
+dual field matches the potential: `vol·(Σ_q w_q pt_{q,a} g_{lo,q,a} + Σ_q w_q (1−pt_{q,a}) g_{hi,q,a}) = −area·(p_hi − p_lo)`.
+Then `Σ_c p_c·vol·f_c ≤ cost(U)` for every mass-conserving flux. -/
+theorem potential_lower_bound_rule (shape : List Nat) (h : List Rat) (hv : 0 ≤ vol h) (nq : Nat) (wq : Nat → Rat)
+    (ptq : Nat → List Rat) (hw : ∀ q, q < nq → 0 ≤ wq q) (f U p : Nat → Rat) (g : Nat → Nat → Nat → Rat)
+    (hF : Feasible shape h f U)
+    (hc : ∀ k, k < numFaces shape → vol h *
+        (dualHi nq wq ptq g (conn shape k).1 (faceAxis shape k) + dualLo nq wq ptq g (conn shape k).2 (faceAxis shape k)) =
+        -(area h (faceAxis shape k) * (p (conn shape k).2 - p (conn shape k).1)))
+    (hg : ∀ c, c < numCells shape → ∀ q, q < nq → sumTo shape.length (fun a => g c q a * g c q a) ≤ 1) :
+    ((sumTo (numCells shape) (fun c => p c * (vol h * f c)) : Rat) : ℝ) ≤
+      costR (euclid shape.length) shape h (ruleR nq wq ptq) 1 U :=
+  potential_lower_bound_rule_aux (euclid_isSeminormR shape.length) shape h hv nq wq ptq hw f U p g hF hc
+    (fun c hc' q hq v => euclid_polar shape.length (g c q) (hg c hc' q hq) v)
+
+/-- **… for the corner rule** (CONSTANT_SUBCELL_PROJECTION): a certificate accepted by the driver's exact check `certRuleOK`
+bounds the corner-rule cost of every mass-conserving flux from below — the exact dual of that cost, so the bound can be made
+tight. -/
+theorem potential_lower_bound_corners (shape : List Nat) (h : List Rat) (hv : 0 ≤ vol h) (f U p : Nat → Rat)
+    (g : Nat → Nat → Nat → Rat) (hF : Feasible shape h f U)
+    (hok : certRuleOK shape h (2 ^ shape.length) (cornerW shape.length) (cornerPt shape.length) p g = true) :
+    ((sumTo (numCells shape) (fun c => p c * (vol h * f c)) : Rat) : ℝ) ≤
+      costR (euclid shape.length) shape h (ruleR (2 ^ shape.length) (cornerW shape.length) (cornerPt shape.length)) 1 U := by
+  simp only [certRuleOK, Bool.and_eq_true, List.all_eq_true, List.mem_range, decide_eq_true_eq] at hok
+  refine potential_lower_bound_rule shape h hv _ _ _ (fun q _ => ?_) f U p g hF hok.1 hok.2
+  unfold cornerW; positivity
+
+/-- the model's corner rule has the facts of a rule on the unit cell in dimensions 1–3 (weights `2^-dim`, total 1, first
+moments ½) and lists the `2^dim` corners, each once -/
+theorem corner_rule_model : ∀ dim ∈ [1, 2, 3],
+    sumTo (2 ^ dim) (cornerW dim) = 1 ∧
+    (∀ a ∈ List.range dim, sumTo (2 ^ dim) (fun q => cornerW dim q * (cornerPt dim q).getD a 0) = 1 / 2) ∧
+    ((List.range (2 ^ dim)).map (cornerPt dim)).Nodup ∧
+    ∀ q ∈ List.range (2 ^ dim), (cornerPt dim q).length = dim ∧ ∀ x ∈ cornerPt dim q, x = 0 ∨ x = 1 := by
+  decide +kernel
+
 /-- the driver's exact certificate check is the hypothesis pair of `potential_lower_bound` -/
 theorem certOK_sound (shape : List Nat) (h : List Rat) (p : Nat → Rat) (g : Nat → Nat → Rat)
     (hok : certOK shape h p g = true) :
@@ -320,6 +414,9 @@ example : thinB [1, 1, 3] 2 = true ∧ feasibleB [1, 1, 3] [2, 1/2, 1/4] (fun c 
 /-- a concrete dual certificate on a 2×2 grid (unit voxels): `p = (0, 1, 1, 2)·(1/2)`, `g ≡ (-1/2, -1/2)` -/
 example : certOK [2, 2] [1, 1] (fun c => [0, 1/2, 1/2, 1].getD c 0) (fun _ a => if a < 2 then -1/2 else 0) = true := by
   decide +kernel
+/-- a per-point certificate for the corner rule on a 2×2 grid: `g ≡ (-1/2, -1/2)` at every corner, same potential -/
+example : certRuleOK [2, 2] [1, 1] 4 (cornerW 2) (cornerPt 2) (fun c => [0, 1/2, 1/2, 1].getD c 0)
+    (fun _ _ a => if a < 2 then -1/2 else 0) = true := by decide +kernel
 /-- the rule hypothesis of the first-moment bound is satisfiable by the code's own rules -/
 example : ∃ r, Gen.corners 2 = .ok r ∧ CellRuleFacts r.real 2 := corner_rule_facts 2 (by decide)
 example : ∃ r, Gen.rule 3 2 = .ok r ∧ CellRuleFacts r.toUnitCell.real 3 := gauss_cell_rule_facts (3, 2) (by decide)
